@@ -68,9 +68,10 @@ end
 
 /-- What the overlap-add strategy is called with, as a lookup: `size`, `hop`, and for every option
     given as `ola_<k>` the option `<k>` (which wins over `size` / `hop`); nothing else.
-    `merged` = defaults overridden by the call's keywords (distinct keys). -/
+    `merged` = defaults overridden by the call's keywords (a dict: at most one entry per key; if
+    a key were repeated the later entry would win). -/
 def olaKwSpec {β : Type} (size hop : β) (merged : List (String × β)) (k : String) : Option β :=
-  match merged.find? (fun kv => kv.1 = "ola_" ++ k) with
+  match (merged.filter (fun kv => kv.1 = "ola_" ++ k)).getLast? with
   | some kv => some kv.2
   | none => if k = "size" then some size else if k = "hop" then some hop else none
 
